@@ -194,11 +194,13 @@ class Runner:
         n = op.get('n', [])
         s = self.s
         o = self.objs[op['h'] - 1] if op.get('h') else None
+        if isinstance(o, list) and name != 'b_free':
+            o = o[0]            # a new_consecutive group is addressed through its first buffer
         new = None
         if name in ('synth', 'paused', 'grain', 'replace'):
             a = self.args(op)
             sa = a[0] if len(a) == 1 and isinstance(a[0], dict) else (a or None)
-            tgt, act, via = self.target(op), op['act'], op.get('via', 'new')
+            tgt, act, via = self.target(op), op.get('act', 'addToHead'), op.get('via', 'new')
             if name == 'paused':
                 new = nod.Synth.new_paused(op['def'], sa, tgt, act)
             elif name == 'grain':
@@ -295,6 +297,18 @@ class Runner:
             raise AssertionError('unknown op ' + name)
         return new
 
+    def refers_to_nothing(self, op):
+        hs = [op.get('h', 0)] + ([op.get('t', 0)] if op.get('tk') == 'obj' else [])
+
+        def walk(x):
+            if x['k'] in ('obj', 'map'):
+                hs.append(x['i'])
+            for c in x.get('c', []):
+                walk(c)
+        for x in op.get('a', []):
+            walk(x)
+        return any(h and self.objs[h - 1] is None for h in hs)
+
     def record(self, op, ids, exc):
         e = {'op': op['op'], 'h': op.get('h', 0), 'tk': op.get('tk', 'none'), 't': op.get('t', 0),
              'act': op.get('act', 'addToHead'), 'def': op.get('def', ''), 'a': op.get('a', []), 'n': op.get('n', []),
@@ -307,6 +321,8 @@ class Runner:
         creating = op['op'] in ('synth', 'paused', 'replace', 'group', 'basic', 'buffer', 'buffer_noalloc', 'consecutive',
                                 'cbus', 'abus')
         try:
+            if self.refers_to_nothing(op):
+                raise LookupError('NoObject')      # an object whose creation was refused (no space) cannot be used
             new = self.call(op)
             exc = ''
         except Boom:
@@ -315,6 +331,8 @@ class Runner:
             new = None
             t = type(ex).__name__
             exc = 'AlreadyFreed' if t in ('BufferAlreadyFreed', 'BusAlreadyFreed') else t
+            if t == 'LookupError' and str(ex) == 'NoObject':
+                exc = 'NoObject'
             msg = str(ex)
             if 'failed to get' in msg or 'consecutive buffer numbers is available' in msg or 'No more buffer numbers' in msg:
                 exc = 'NoSpace'
@@ -331,7 +349,7 @@ class Runner:
         for op in hist:
             if op['op'] == 'bind':
                 self.record({'op': 'bind_enter'}, [], '')
-                raised = 0
+                raised, exc = 0, ''
                 try:
                     with self.s.bind():
                         for k, inner in enumerate(op['body']):
@@ -342,7 +360,9 @@ class Runner:
                             raise Boom()
                 except Boom:
                     raised = 1
-                self.record({'op': 'bind_exit', 'n': [raised]}, [], '')
+                except Exception as ex:         # raised by the block exit itself: recorded, judged by the spec
+                    exc = type(ex).__name__
+                self.record({'op': 'bind_exit', 'n': [raised]}, [], exc)
             else:
                 self.step(op)
         return self.ev
